@@ -395,6 +395,14 @@ pub fn load_known(dir: &Path) -> Vec<Known> {
     v
 }
 
+static UNREPRODUCED: std::sync::Mutex<Vec<String>> = std::sync::Mutex::new(Vec::new());
+pub fn note_unreproduced(msg: &str) {
+    let mut u = UNREPRODUCED.lock().unwrap();
+    if u.len() < 64 {
+        u.push(msg.to_string());
+    }
+}
+
 fn fnv(s: &str) -> u64 {
     let mut h: u64 = 0xcbf29ce484222325;
     for b in s.bytes() {
@@ -405,7 +413,22 @@ fn fnv(s: &str) -> u64 {
 }
 
 /// Ends a run: known findings, replay files, VIOLATION lines, evidence, exit code.
-pub fn finish(rep: Report) -> ! {
+/// Moves recorded non-reproducible mismatches into the report (idempotent).
+pub fn absorb_unreproduced(rep: &mut Report) {
+    for msg in UNREPRODUCED.lock().unwrap().drain(..) {
+        rep.violate(Violation {
+            class: "result-not-reproducible".into(),
+            case: Case::text("unreproduced", &msg, &[]),
+            expected: "the same result whenever the same call is repeated".into(),
+            observed: format!("{} - a wrong result was observed once and not on re-execution: the result depends on something other than the input", msg),
+            profile: profile_name().to_string(),
+            trace: Vec::new(),
+        });
+    }
+}
+
+pub fn finish(mut rep: Report) -> ! {
+    absorb_unreproduced(&mut rep);
     let known = load_known(&verif_dir());
     let dir = out_dir();
     let mut unknown: Vec<&Violation> = Vec::new();
